@@ -516,3 +516,7 @@ def run(res, ctx):
         "'rejected iff impossible' is a theorem about the exact-arithmetic model (C04_rejection_matches_offence, C04_rejected_iff_offending, C04_accepted_iff_possible); the implementation (rust_decimal arithmetic) is compared on every generated case with the exact-arithmetic model, with first_offence / possible_rows of the extracted declarative walk and with an independent exact share ledger",
         "visibility is observed on the real binary / render model per mode; the writers (tabled, csv) are not modelled",
     ]
+
+
+def replay(res, ctx, path):
+    return corecheck.replay(res, ctx, path)
